@@ -236,6 +236,7 @@ impl Calendar {
             );
         }
 
+        Self::check_year_magnitude(&resolved_fields.era_year)?;
         let calendar_date = self
             .0
             .date_from_codes(
@@ -296,6 +297,7 @@ impl Calendar {
             );
         }
 
+        Self::check_year_magnitude(&resolved_fields.era_year)?;
         // NOTE: This might preemptively throw as `ICU4X` does not support regulating.
         let calendar_date = self
             .0
@@ -546,6 +548,19 @@ impl Calendar {
         }
     }
 
+    /// No calendar counts a representable date beyond a few hundred thousand years either side of
+    /// its epoch; a year far outside that cannot name one, and `icu_calendar`'s arithmetic is not
+    /// checked for such years (it overflows near the ends of `i32`).
+    fn check_year_magnitude(era_year: &types::EraYear) -> TemporalResult<()> {
+        const MAX_CALENDAR_YEAR: i32 = 1_000_000;
+        if !(-MAX_CALENDAR_YEAR..=MAX_CALENDAR_YEAR).contains(&era_year.year) {
+            return Err(
+                TemporalError::range().with_message("year is not within a representable range.")
+            );
+        }
+        Ok(())
+    }
+
     /// The code of the `month`-th month of the given year: `M<month>` unless a
     /// leap month comes earlier in that year (then `M<month - 1>`), or the month
     /// is itself the leap month (`M<month - 1>L`).
@@ -554,6 +569,7 @@ impl Calendar {
         era_year: &types::EraYear,
         month: u8,
     ) -> TemporalResult<MonthCode> {
+        Self::check_year_magnitude(era_year)?;
         // Only the lunisolar calendars have leap months; everywhere else the
         // ordinal is the number in the code.
         if !matches!(
